@@ -64,6 +64,7 @@ func c06(r *Report) propMeta {
 	cUnsup := Cond{Op: "LSS", A: total, B: unsup2, Desc: "unsupportedPower*2 > totalPower"}
 	cQuorum := Cond{Op: "LSS", A: total, B: []string{"^param:powerQuorum"}, Desc: "totalPower < powerQuorum"}
 	cAvail := Cond{Op: "LSS", A: avail2, B: total, Desc: "availablePower*2 < totalPower"}
+	cNone := Cond{Op: "BOOL", A: []string{"^call:Int.IsPositive", "extract:1", "call:types.CalculatePricesPowers"}, Desc: "availablePower > 0"}
 	want := func(c Cond, v bool) Cond { c.Want = v; return c }
 	stUnknown := w.ConstAtom(ft, "PRICE_STATUS_UNKNOWN_SIGNAL_ID")
 	stNotReady := w.ConstAtom(ft, "PRICE_STATUS_NOT_READY")
@@ -71,11 +72,11 @@ func c06(r *Report) propMeta {
 
 	r.Rule("C06.R1", "E4 status decision table")
 	r.Gate("unknown-iff-majority-unsupported", cp, RetValEff(0, "call:types.NewPrice", stUnknown), []Cond{want(cUnsup, true)}, GateOpts{})
-	r.GateAny("not-ready-iff-below-quorum-or-minority-available", cp, RetValEff(0, "call:types.NewPrice", stNotReady), []Cond{want(cQuorum, true), want(cAvail, true)}, 1)
+	r.GateAny("not-ready-iff-below-quorum-or-minority-available", cp, RetValEff(0, "call:types.NewPrice", stNotReady), []Cond{want(cQuorum, true), want(cNone, false), want(cAvail, true)}, 1)
 	r.Gate("not-ready-not-unknown", cp, RetValEff(0, "call:types.NewPrice", stNotReady), []Cond{want(cUnsup, false)}, GateOpts{})
-	r.Gate("available-iff-quorum-and-half-available", cp, RetValEff(0, "call:types.NewPrice", stAvail), []Cond{want(cUnsup, false), want(cQuorum, false), want(cAvail, false), nilErrOf("types.MedianValidatorPriceInfos")}, GateOpts{FailIsError: false})
+	r.Gate("available-iff-quorum-and-half-available", cp, RetValEff(0, "call:types.NewPrice", stAvail), []Cond{want(cUnsup, false), want(cQuorum, false), want(cNone, true), want(cAvail, false), nilErrOf("types.MedianValidatorPriceInfos")}, GateOpts{FailIsError: false})
 	r.Count("three-status-exits", cp, []Effect{CallEff("types.NewPrice")}, "ok", 1, 1)
-	r.CondCount("exactly-four-branches", cp, 4)
+	r.CondCount("exactly-five-branches", cp, 5) // majority-unsupported, below-quorum, no-available-power (F4 fix), minority-available, median error
 	r.Exists("available-carries-median", cp, RetValEff(0, "call:types.NewPrice", stAvail, "call:types.MedianValidatorPriceInfos"), 1)
 	r.ArgHas("median-of-the-same-infos", cp, "types.MedianValidatorPriceInfos", 0, 1, "^param:validatorPriceInfos")
 	r.ArgHas("powers-of-the-same-infos", cp, "types.CalculatePricesPowers", 0, 1, "^param:validatorPriceInfos")
@@ -166,7 +167,7 @@ func c06(r *Report) propMeta {
 
 	return propMeta{
 		Decided: []string{
-			"R1 CalculatePrice has exactly the three status exits with guards unsupported*2>total -> UNKNOWN; total<quorum or available*2<total -> NOT_READY; else AVAILABLE with the median of the same infos; powerQuorum = trunc(TotalBondedTokens * PriceQuorum); power sums add each info's power to the bucket of its status",
+			"R1 CalculatePrice has exactly the three status exits with guards unsupported*2>total -> UNKNOWN; total<quorum or available==0 or available*2<total -> NOT_READY; else AVAILABLE with the median of the same infos; powerQuorum = trunc(TotalBondedTokens * PriceQuorum); power sums add each info's power to the bucket of its status",
 			"R2 MedianWeightedPrice returns the Price field of an element of its input at the first cumulative*2 >= total crossing; MedianValidatorPriceInfos builds weighted prices from priceInfo.Price of entries that passed == AVAILABLE and sizes sections from AVAILABLE power only: the published price IS one of the fresh AVAILABLE inputs (hence within their min/max)",
 			"R3 validators enter only inside the IterateBondedValidatorsByPower callback past oracle IsActive; a price enters only past checkHavePrice == (status != UNSPECIFIED && timestamp >= blockTime - interval), nothing else",
 			"R4 section table {1,3,7,15,32} strictly increasing ending at the scaling factor 32; multipliers non-increasing; equal lengths",
